@@ -203,6 +203,71 @@ func init() {
 				serve = func(req *http.Request) rig.Answer { return rig.Answer{Body: small} }
 			})
 			_ = sc.CM.UpdateExtraConfig(prom.ExtraConfig{})
+			// the stop-scrape reason is lifted / set while the scrape is in flight: whatever the proxy
+			// decides, Prometheus and the status must agree (a complete 200 carries the full payload)
+			for _, lift := range []bool{true, false} {
+				lift := lift
+				kind := "stop-set-in-flight"
+				if lift {
+					kind = "stop-lifted-in-flight"
+				}
+				idx++
+				if c.Mine(idx) {
+					if lift {
+						_ = sc.CM.UpdateExtraConfig(prom.ExtraConfig{StopScrapeReason: "maintenance"})
+					} else {
+						_ = sc.CM.UpdateExtraConfig(prom.ExtraConfig{})
+					}
+					serve = func(req *http.Request) rig.Answer {
+						if lift {
+							_ = sc.CM.UpdateExtraConfig(prom.ExtraConfig{})
+						} else {
+							_ = sc.CM.UpdateExtraConfig(prom.ExtraConfig{StopScrapeReason: "maintenance"})
+						}
+						return rig.Answer{Body: small}
+					}
+					h := uint64(1)
+					if !assigned {
+						h = 999
+					}
+					before := sc.TM.TargetsInfo().Status[1].ScrapeTimes
+					resp, err := cli.Get(rig.ProxyURL("j1", h, "http", "t1:80", "/metrics", nil))
+					r.States++
+					r.Transitions++
+					r.Nontrivial++
+					cs := c13Case{Kind: kind, Assigned: assigned, BodyLen: len(small)}
+					obs := map[string]interface{}{}
+					clean200 := false
+					var got []byte
+					if err == nil {
+						var rerr error
+						got, rerr = io.ReadAll(resp.Body)
+						resp.Body.Close()
+						obs["status"], obs["body_len"] = resp.StatusCode, len(got)
+						clean200 = resp.StatusCode == 200 && rerr == nil
+					} else {
+						obs["client_error"] = err.Error()
+					}
+					st := sc.TM.TargetsInfo().Status[1]
+					obs["health"], obs["last_error"] = string(st.Health), st.LastError
+					rp := &c13Replay{Property: "C13", Clause: "in-flight-config-change", Case: cs, Observed: obs}
+					if clean200 && !bytes.Equal(got, small) {
+						r.Violate("C13:complete-200:"+kind, "prometheus-side-fails", fmt.Sprintf("%+v: complete 200 response with %d of %d bytes", cs, len(got), len(small)), idx, rp)
+					}
+					if assigned {
+						if st.ScrapeTimes != before+1 {
+							r.Violate("C13:counter:"+kind, "counter-once", fmt.Sprintf("%+v: counter %d -> %d", cs, before, st.ScrapeTimes), idx, rp)
+						}
+						if clean200 && (string(st.Health) != "up" || st.LastError != "") {
+							r.Violate("C13:health-disagrees:"+kind, "truthful-health", fmt.Sprintf("%+v: Prometheus got a complete 200 but the status says %s / %q", cs, st.Health, st.LastError), idx, rp)
+						}
+						if !clean200 && (string(st.Health) != "down" || st.LastError == "") {
+							r.Violate("C13:health-disagrees:"+kind, "truthful-health", fmt.Sprintf("%+v: Prometheus-side scrape failed (%v) but the status says %s / %q", cs, obs, st.Health, st.LastError), idx, rp)
+						}
+					}
+					_ = sc.CM.UpdateExtraConfig(prom.ExtraConfig{})
+				}
+			}
 			// body breaking off at every byte offset (identity), and in the compressed stream (gzip)
 			for _, gzipOn := range []bool{false, true} {
 				wire := small
